@@ -774,6 +774,117 @@ theorem concat_ok (inv : Inv sz s) {x y : Nat} {lx ly : RawList}
       · show ln2.rc = 1
         rw [y4, x4]; exact e04
 
+
+theorem good_concat (inv : Inv sz s) (rel : Rel s t) (d a b : Nat) : Good sz s t (.concat d a b) := by
+  rcases slot_dec s a with ⟨x, hsa⟩ | hsa
+  · rcases slot_dec s b with ⟨y, hsb⟩ | hsb
+    · have ⟨lx, hx⟩ := inv.slot a x hsa
+      have ⟨ly, hy⟩ := inv.slot b y hsb
+      rcases concat_ok inv hx hy with hp | ⟨ln, hrun, c1, c2, okn, kn, rcn⟩
+      · apply good_of_panic
+        simp only [stepE, slot_ok hsa, slot_ok hsb, hp]
+      · rcases bind_ok inv rel okn kn rcn d (s.live + lx.len + ly.len) (by rw [c2]; omega) with
+          ⟨hb, hsp⟩ | ⟨s', h1, h2, h3, h4⟩
+        · rw [c1] at hsp
+          refine good_of_bad ?_ ?_ inv rel
+          · simp only [stepE, slot_ok hsa, slot_ok hsb, hrun]
+            rw [hb]
+          · simp only [specStep, vec_ok rel hsa hx, vec_ok rel hsb hy]
+            exact hsp
+        · rw [c1] at h3 h4
+          refine good_of_ok (o := .unit) (s' := s') ?_ ?_ h2 ?_
+          · simp only [stepE, slot_ok hsa, slot_ok hsb, hrun]
+            rw [h1]
+          · simp only [specStep, vec_ok rel hsa hx, vec_ok rel hsb hy, eraseCap]
+            exact h3.symm
+          · simp only [specStep, vec_ok rel hsa hx, vec_ok rel hsb hy]
+            exact h4
+    · refine good_of_bad ?_ ?_ inv rel
+      · simp only [stepE, slot_ok hsa, slot_bad hsb]
+      · have ⟨lx, hx⟩ := inv.slot a x hsa
+        simp only [specStep, vec_ok rel hsa hx, vec_bad rel hsb]
+  · refine good_of_bad ?_ ?_ inv rel
+    · simp only [stepE, slot_bad hsa]
+    · simp only [specStep, vec_bad rel hsa]
+
+/-- every operation, from every state satisfying the invariant -/
+theorem good_step (inv : Inv sz s) (rel : Rel s t) (op : Op) : Good sz s t op := by
+  cases op with
+  | new d => exact good_new inv rel d
+  | fromVec d xs => exact good_fromVec inv rel d xs
+  | cloneH d src => exact good_cloneH inv rel d src
+  | dropH h => exact good_dropH inv rel h
+  | push h v => exact good_push inv rel h v
+  | get h i => exact good_get inv rel h i
+  | len h => exact good_len inv rel h
+  | isEmpty h => exact good_isEmpty inv rel h
+  | capacity h => exact good_capacity inv rel h
+  | swap h i j => exact good_swap inv rel h i j
+  | concat d a b => exact good_concat inv rel d a b
+  | contains h v => exact good_contains inv rel h v
+  | index h v => exact good_index inv rel h v
+  | eq a b typed => exact good_eq inv rel a b typed
+  | toVec h => exact good_toVec inv rel h
+  | iter h => exact good_iter inv rel h
+  | join h => exact good_join inv rel h
+
+
 end ops
+
+/-- the abstraction of a store -/
+def absSpec (s : St) : Spec :=
+  { lists := s.allocs.map (fun o => match o with | some l => l.elems | none => []), slots := s.slots }
+
+theorem Rel_abs (s : St) : Rel s (absSpec s) := by
+  refine ⟨rfl, by simp [absSpec], ?_⟩
+  intro a l h
+  have ⟨hlt, he⟩ := getAlloc_some_lt h
+  simp only [absSpec, List.getElem?_map, he, Option.map]
+
+theorem Inv_step {sz : Nat} {s : St} (inv : Inv sz s) (op : Op) : Inv sz (step sz s op).2 := by
+  rcases good_step inv (Rel_abs s) op with ⟨_, h⟩ | ⟨_, h, _⟩
+  · rw [h]; exact inv
+  · exact h
+
+theorem Inv_runSt {sz : Nat} : ∀ (ops : List Op) {s : St}, Inv sz s → Inv sz (runSt sz s ops)
+  | [], _, inv => inv
+  | op :: rest, _, inv => Inv_runSt rest (Inv_step inv op)
+
+def specRunSt : Spec → List Op → Spec
+  | t, [] => t
+  | t, op :: rest => specRunSt (specStep t op).2 rest
+
+/-- forward simulation along a whole history that meets no capacity overflow -/
+theorem run_sim {sz : Nat} : ∀ (ops : List Op) {s : St} {t : Spec}, Inv sz s → Rel s t →
+    (∀ o ∈ run sz s ops, o ≠ .fault .panic) →
+    List.zipWith eraseCap ops (run sz s ops) = specRun t ops ∧
+      Rel (runSt sz s ops) (specRunSt t ops)
+  | [], _, _, _, rel, _ => ⟨rfl, rel⟩
+  | op :: rest, s, t, inv, rel, hp => by
+    have hp0 : (step sz s op).1 ≠ .fault .panic := hp _ (by simp [run])
+    have hp1 : ∀ o ∈ run sz (step sz s op).2 rest, o ≠ .fault .panic :=
+      fun o ho => hp o (by simp [run, ho])
+    rcases good_step inv rel op with ⟨h, _⟩ | ⟨h1, h2, h3⟩
+    · exact absurd h hp0
+    · have ⟨ih1, ih2⟩ := run_sim rest h2 h3 hp1
+      refine ⟨?_, ih2⟩
+      simp only [run, specRun, List.zipWith_cons_cons, h1, ih1]
+
+theorem specStep_no_lock_fault (t : Spec) (op : Op) :
+    (specStep t op).1 ≠ .fault .deadlock ∧ (specStep t op).1 ≠ .fault .ub := by
+  cases op <;> simp only [specStep, Spec.bind] <;> (repeat' split) <;> simp
+
+theorem eraseCap_fault {op : Op} {o : Out} {f : Fault} (h : o = .fault f) : eraseCap op o = .fault f := by
+  subst h; cases op <;> rfl
+
+/-- no operation dead-locks or touches freed / uninitialised memory -/
+theorem step_no_lock_fault {sz : Nat} {s : St} (inv : Inv sz s) (op : Op) :
+    (step sz s op).1 ≠ .fault .deadlock ∧ (step sz s op).1 ≠ .fault .ub := by
+  rcases good_step inv (Rel_abs s) op with ⟨h, _⟩ | ⟨h, _, _⟩
+  · rw [h]; simp
+  · have ⟨n1, n2⟩ := specStep_no_lock_fault (absSpec s) op
+    constructor
+    · intro hd; rw [eraseCap_fault hd] at h; exact n1 h.symm
+    · intro hd; rw [eraseCap_fault hd] at h; exact n2 h.symm
 
 end RotoV.ListM
